@@ -72,7 +72,7 @@ def _worker_batch(prop: str, tier: str, verif_seed: int, indices: Sequence[int],
             out["escaped_runs"] += 1
         if r.nontrivial:
             out["nontrivial"] += 1
-            out["digests"].append(r.digest[:16])
+            out["digests"].append(int(r.digest[:16], 16))
         if len(out["samples"]) < 1 and r.nontrivial:
             out["samples"].append({"run_index": idx, "seed": seed, "config": r.config, "trace": r.trace[:60]})
         if r.error:
